@@ -26,6 +26,8 @@ type Variant struct {
 	Rule     string // rule expected to fire ("" = any rule of the property)
 	Why      string // what behaviour the edit breaks
 	Benign   bool   // a behaviour-preserving edit: the check must stay silent
+	// Also is applied to the whole file after the main edit (e.g. an import the edit needs): pairs of old, new text.
+	Also []string
 }
 
 // ErrNotApplicable means the anchor text of the variant is not in the current tree.
@@ -86,6 +88,12 @@ func (v Variant) Apply(repo string) (map[string][]byte, error) {
 		from = idx + len(v.Old)
 	}
 	out := string(src[:lo]) + scope[:idx] + v.New + scope[idx+len(v.Old):] + string(src[hi:])
+	for i := 0; i+1 < len(v.Also); i += 2 {
+		if !strings.Contains(out, v.Also[i]) {
+			return nil, fmt.Errorf("%w: text %q not in %s", ErrNotApplicable, v.Also[i], v.File)
+		}
+		out = strings.Replace(out, v.Also[i], v.Also[i+1], 1)
+	}
 	return map[string][]byte{path: []byte(out)}, nil
 }
 
